@@ -70,8 +70,9 @@ def compile_pattern(pattern: str) -> Union[ast.expr, List[ast.stmt]]:
             continue
     if tree is None:
         raise AnalysisError(f"pattern does not parse: {pattern!r}")
-    from .core import canonicalise_comparisons
+    from .core import canonicalise_branches, canonicalise_comparisons
     canonicalise_comparisons(tree)  # patterns are matched against canonicalised modules
+    canonicalise_branches(tree)
     body = tree.body
     out: Union[ast.expr, List[ast.stmt]]
     if len(body) == 1 and isinstance(body[0], ast.Expr):
